@@ -48,12 +48,14 @@ func scenReplayMP(rep *Report, tier string, seed int64) {
 				b.SPR = g.SPRSet(h, SPRVersionAt(a, h), ids, signers, payout, g.Rates, nil)
 			}
 		}
-		// four users burn the same amount in the same block: equal stakes at both snapshots
+		// four users burn the same, very large amount in the same block: they tie for the TOP stake
+		// at both snapshots and the total is far above the cap, so the rounding dust has to be
+		// assigned among exactly tied stakers; a fifth, smaller staker makes the shares uneven
 		if h == a.Pegnet+1 {
 			for i := 0; i < 4; i++ {
-				b.FCT = append(b.FCT, Burn(h, g.Users[i].FA(), 1000e8, i))
+				b.FCT = append(b.FCT, Burn(h, g.Users[i].FA(), 4e14, i))
 			}
-			b.FCT = append(b.FCT, Burn(h, g.Users[4].FA(), 1500e8, 9))
+			b.FCT = append(b.FCT, Burn(h, g.Users[4].FA(), 1.5e14+7, 9))
 		}
 		// equal PEG requests in the bank era (same amounts, different entries)
 		if h == a.ConvLimit+1 || h == a.V4+1 {
@@ -104,7 +106,7 @@ func scenReplayMP(rep *Report, tier string, seed int64) {
 			What: "two processes replaying the same chain produced different ledgers", Detail: []string{diff}, Blocks: ChainJSON(ref.Chain)})
 		rep.Violate(sig, diff, path)
 	}
-	rep.Sample(map[string]interface{}{"processes": len(dumps), "chain_length": len(ref.Chain), "ties": "4 equal stakers at snapshots 144 and 288; 4 equal PEG requests in two bank-era blocks"})
+	rep.Sample(map[string]interface{}{"processes": len(dumps), "chain_length": len(ref.Chain), "ties": "4 stakers tied for the top stake (total above the cap, dust to assign) at snapshots 144 and 288; 4 equal PEG requests in two bank-era blocks"})
 	rep.Rule = "one evaluation = the stored chain replayed by one more independent OS process (child of the harness) and its canonical dump compared with the reference run's (which is in lock-step with the model); distinct = process pairs"
 }
 
